@@ -3,7 +3,16 @@
 
 use std::fmt::Write as _;
 
-use crate::spec::Ty;
+/// data types in the order the generated checker numbers them
+#[derive(Clone, Copy, Debug, PartialEq, Eq)]
+pub enum Ty {
+    Master,
+    U,
+    I,
+    F,
+    S,
+    B,
+}
 
 #[derive(Clone, Debug, PartialEq)]
 pub enum DPart {
